@@ -47,6 +47,7 @@ type FuncSpec struct {
 	Decreases   ast.Expr
 	AllowPanic  bool
 	Inline      bool
+	Functional  string // name of the uninterpreted function that equals the result (pure function of the arguments)
 }
 
 type Macro struct {
@@ -80,7 +81,7 @@ func (db *SpecDB) Lookup(name string) *FuncSpec {
 	return db.Funcs[name]
 }
 
-var clauseKW = regexp.MustCompile(`^(func|extern|define|requires|ensures|modifies|loop|props|safety|schema|trusted|effect|decreases|assume|allow-panic|inline)\b`)
+var clauseKW = regexp.MustCompile(`^(func|extern|define|requires|ensures|modifies|loop|props|safety|schema|trusted|effect|decreases|assume|allow-panic|inline|functional)\b`)
 
 // LoadSpecs reads every given contract file.
 func LoadSpecs(files []string) (*SpecDB, error) {
@@ -219,6 +220,8 @@ func (db *SpecDB) loadFile(file string) error {
 				cur.AllowPanic = true
 			case "inline":
 				cur.Inline = true
+			case "functional":
+				cur.Functional = rest
 			case "modifies":
 				cur.Modifies = append(cur.Modifies, splitList(rest)...)
 			case "requires", "ensures":
@@ -481,6 +484,7 @@ func indexTop(s, op string) int {
 // Evaluation
 
 type specEnv struct {
+	into    *State // receives memory-model side facts about loaded references (nil: none)
 	st      *State
 	old     *State
 	vars    map[string]SV
@@ -560,6 +564,23 @@ func printExpr(b *strings.Builder, x ast.Expr) {
 
 func pureSV(t Term) SV { return SV{L: []Term{t}} }
 
+// refFacts: every reference stored in the heap is allocated (global invariant of the memory model).
+func (e *Exec) refFacts(env *specEnv, v SV) SV {
+	if env.into == nil || v.T == nil {
+		return v
+	}
+	for _, t := range v.L {
+		if strings.Contains(t.S, "!q") {
+			return v
+		}
+	}
+	saved := env.into.alloc
+	env.into.alloc = env.st.alloc
+	e.wfAssume(env.into, v)
+	env.into.alloc = saved
+	return v
+}
+
 func (e *Exec) evalSpec(x ast.Expr, env *specEnv) (SV, error) {
 	switch n := x.(type) {
 	case *ast.ParenExpr:
@@ -621,6 +642,13 @@ func (e *Exec) evalSpec(x ast.Expr, env *specEnv) (SV, error) {
 		if err != nil {
 			return SV{}, err
 		}
+		// lazy connectives: statically decided left operands (event predicates) guard the right one
+		if n.Op == token.LAND && len(a.L) == 1 && a.L[0].S == "false" {
+			return pureSV(BoolLit(false)), nil
+		}
+		if n.Op == token.LOR && len(a.L) == 1 && a.L[0].S == "true" {
+			return pureSV(BoolLit(true)), nil
+		}
 		b, err := e.evalSpec(n.Y, env)
 		if err != nil {
 			return SV{}, err
@@ -678,10 +706,10 @@ func (e *Exec) evalSpec(x ast.Expr, env *specEnv) (SV, error) {
 		}
 		switch t := v.T.Underlying().(type) {
 		case *types.Slice:
-			a := &Addr{Kind: AElem, Class: typeKey(t.Elem()), Ref: v.L[0], Idx: Add(v.L[1], idx.L[0]), T: t.Elem()}
-			return e.load(env.st, a), nil
+			a := &Addr{Kind: AElem, Class: typeKey(t.Elem()), Ref: v.L[0], Idx: CellIdx(v.L[1], idx.L[0]), T: t.Elem()}
+			return e.refFacts(env, e.load(env.st, a)), nil
 		case *types.Map:
-			return e.mapVal(env.st, t, v.L[0], idx.L[0]), nil
+			return e.refFacts(env, e.mapVal(env.st, t, v.L[0], idx.L[0])), nil
 		case *types.Basic:
 			return pureSV(app(SInt, "str.to_code", app(SString, "str.at", v.L[0], idx.L[0]))), nil
 		}
@@ -768,7 +796,7 @@ func (e *Exec) selectField(env *specEnv, v SV, name string, x ast.Expr) (SV, err
 		} else {
 			a = &Addr{Kind: AObj, Class: typeKey(pt.Elem()), Ref: v.L[0], Path: path, T: ft}
 		}
-		return e.load(env.st, a), nil
+		return e.refFacts(env, e.load(env.st, a)), nil
 	}
 	if _, ok := v.T.Underlying().(*types.Struct); ok {
 		path, ft, ok := findField(v.T, name)
@@ -878,11 +906,40 @@ func (e *Exec) evalSpecCall(n *ast.CallExpr, env *specEnv) (SV, error) {
 			}
 			return pureSV(Term{fmt.Sprintf("(%s (%s) %s)", id.Name, strings.Join(binders, " "), body.S), SBool}), nil
 		case "implies":
-			a, err := args()
+			a0, err := e.evalSpec(n.Args[0], env)
 			if err != nil {
 				return SV{}, err
 			}
-			return pureSV(Implies(a[0].L[0], a[1].L[0])), nil
+			if len(a0.L) == 1 && a0.L[0].S == "false" {
+				return pureSV(BoolLit(true)), nil
+			}
+			a1, err := e.evalSpec(n.Args[1], env)
+			if err != nil {
+				return SV{}, err
+			}
+			return pureSV(Implies(a0.L[0], a1.L[0])), nil
+		case "rawcells": // rawcells("byte", s): the backing array of slice s as an SMT array
+			lit, ok := n.Args[0].(*ast.BasicLit)
+			if !ok {
+				return SV{}, fmt.Errorf("rawcells needs a literal element type key")
+			}
+			key, _ := strconv.Unquote(lit.Value)
+			v, err := e.evalSpec(n.Args[1], env)
+			if err != nil {
+				return SV{}, err
+			}
+			srt := SInt
+			if key == "string" {
+				srt = SString
+			}
+			A := e.heapGet(env.st, heapSym("A", key, ""), ArrSort(SInt, ArrSort(SInt, srt)))
+			return pureSV(Select(A, v.L[0])), nil
+		case "rawoff":
+			v, err := e.evalSpec(n.Args[0], env)
+			if err != nil {
+				return SV{}, err
+			}
+			return pureSV(v.L[1]), nil
 		case "iff":
 			a, err := args()
 			if err != nil {
@@ -1028,6 +1085,116 @@ func (e *Exec) evalSpecCall(n *ast.CallExpr, env *specEnv) (SV, error) {
 			return pureSV(e.ctx.uf(name, Sort(sortLit.Name), ts...)), nil
 		case "isJoin":
 			return e.evalIsJoin(n, env)
+		case "nev":
+			return pureSV(IntLit(int64(len(env.st.events)))), nil
+		case "forallEv", "existsEv":
+			// static expansion over the events of this path
+			if len(n.Args) < 2 {
+				return SV{}, fmt.Errorf("%s needs binders and a body", id.Name)
+			}
+			var names []string
+			for _, b := range n.Args[:len(n.Args)-1] {
+				bid, ok := b.(*ast.Ident)
+				if !ok {
+					return SV{}, fmt.Errorf("%s: binder must be an identifier", id.Name)
+				}
+				names = append(names, bid.Name)
+			}
+			var parts []Term
+			var rec func(k int, be *specEnv) error
+			rec = func(k int, be *specEnv) error {
+				if k == len(names) {
+					t, err := e.evalSpecBool(n.Args[len(n.Args)-1], be)
+					if err != nil {
+						return err
+					}
+					parts = append(parts, t)
+					return nil
+				}
+				for i := range env.st.events {
+					if err := rec(k+1, be.with(names[k], SV{T: types.Typ[types.Int], L: []Term{IntLit(int64(i))}})); err != nil {
+						return err
+					}
+				}
+				return nil
+			}
+			if err := rec(0, env); err != nil {
+				return SV{}, err
+			}
+			if id.Name == "forallEv" {
+				return pureSV(And(parts...)), nil
+			}
+			return pureSV(Or(parts...)), nil
+		case "evIs", "evKind", "evArg", "evRes", "evArgContent":
+			iv, err := e.evalSpec(n.Args[0], env)
+			if err != nil {
+				return SV{}, err
+			}
+			k, ok := litInt(iv.L[0])
+			if !ok || k < 0 || int(k) >= len(env.st.events) {
+				return SV{}, fmt.Errorf("%s: event index must be a bound event variable", id.Name)
+			}
+			ev := env.st.events[k]
+			switch id.Name {
+			case "evIs":
+				lit, ok := n.Args[1].(*ast.BasicLit)
+				if !ok {
+					return SV{}, fmt.Errorf("evIs needs a literal name")
+				}
+				name, _ := strconv.Unquote(lit.Value)
+				return pureSV(BoolLit(ev.Callee == name)), nil
+			case "evKind":
+				lit, ok := n.Args[1].(*ast.BasicLit)
+				if !ok {
+					return SV{}, fmt.Errorf("evKind needs a literal kind")
+				}
+				name, _ := strconv.Unquote(lit.Value)
+				return pureSV(BoolLit(hasProp(strings.Fields(ev.Mode), name))), nil
+			case "evArg":
+				av, err := e.evalSpec(n.Args[1], env)
+				if err != nil {
+					return SV{}, err
+				}
+				j, ok := litInt(av.L[0])
+				if !ok || int(j) >= len(ev.SVs) {
+					return SV{}, fmt.Errorf("evArg: event %s has no argument %v", ev.Callee, av.L[0])
+				}
+				return ev.SVs[j], nil
+			case "evRes":
+				if len(n.Args) == 1 {
+					return ev.Res, nil
+				}
+				av, err := e.evalSpec(n.Args[1], env)
+				if err != nil {
+					return SV{}, err
+				}
+				j, _ := litInt(av.L[0])
+				tt, ok := ev.Res.T.(*types.Tuple)
+				if !ok || int(j) >= tt.Len() {
+					return SV{}, fmt.Errorf("evRes: event %s has no result %d", ev.Callee, j)
+				}
+				lo := 0
+				for k := 0; k < int(j); k++ {
+					lo += len(flatten(tt.At(k).Type()))
+				}
+				hi := lo + len(flatten(tt.At(int(j)).Type()))
+				return SV{T: tt.At(int(j)).Type(), L: ev.Res.L[lo:hi]}, nil
+			}
+		case "global": // global("os.Stdout"): current value of a package-level variable
+			lit, ok := n.Args[0].(*ast.BasicLit)
+			if !ok {
+				return SV{}, fmt.Errorf("global needs a literal name")
+			}
+			name, _ := strconv.Unquote(lit.Value)
+			k := strings.LastIndex(name, ".")
+			for _, p := range e.ld.allTypes {
+				if pkgQual(p) == name[:k] {
+					if v, ok := p.Scope().Lookup(name[k+1:]).(*types.Var); ok {
+						return e.load(env.st, &Addr{Kind: AGlobal, Class: name, T: v.Type()}), nil
+					}
+				}
+			}
+			return SV{}, fmt.Errorf("no global %s", name)
 		}
 		if m, ok := e.specs.Macros[id.Name]; ok {
 			if len(m.Params) != len(n.Args) {
@@ -1179,8 +1346,8 @@ func (e *Exec) evalIsJoin(n *ast.CallExpr, env *specEnv) (SV, error) {
 		// r = join(view(jf.Arr, jf.Off, jf.Len), jf.Sep) holds by the assumed contract of strings.Join
 		arr = Term{fmt.Sprintf("(lambda ((i!j Int)) (select %s (+ %s i!j)))", jf.Arr.S, jf.Off.S), ArrSort(SInt, SString)}
 		_ = arr
-		pointwise := Term{fmt.Sprintf("(forall ((%s Int)) (=> (and (<= 0 %s) (< %s %s)) (= (select %s (+ %s %s)) %s)))",
-			q, q, q, cnt.L[0].S, jf.Arr.S, jf.Off.S, q, el.L[0].S), SBool}
+		pointwise := Term{fmt.Sprintf("(forall ((%s Int)) (=> (and (<= 0 %s) (< %s %s)) (= (select %s %s) %s)))",
+			q, q, q, cnt.L[0].S, jf.Arr.S, CellIdx(jf.Off, Term{q, SInt}).S, el.L[0].S), SBool}
 		extra = append(extra, Eq(jf.Len, cnt.L[0]), Eq(jf.Sep, sep.L[0]), pointwise)
 		return pureSV(And(extra...)), nil
 	}
